@@ -226,6 +226,66 @@ package main
 //@ ensures [C02,C13,C19,C20,C18] imp(!isT && !isD && ty == descriptor.FieldDescriptorProto_TYPE_MESSAGE, result1 == nil && same(result0, row(tObject, "")))
 //@ ensures [C18] imp(!isT && !isD && ty == descriptor.FieldDescriptorProto_TYPE_GROUP, result1 != nil)
 
+// ===================================================================== message_build_context.go
+
+//@ func MessageBuildContext.GetGoType
+//@ pure
+//@ requires c.config != nil && c.desc != nil
+//@ ensures [C13,C12] result == ite(c.config.DefaultPackageName == "", c.desc.GetName(), c.config.DefaultPackageName + "." + c.desc.GetName())
+
+//@ func MessageBuildContext.GetPath
+//@ pure
+//@ requires c.desc != nil && imp(c.path == "", c.desc.File() != nil)
+//@ ensures [C11,C12] imp(c.path != "", result == c.path)
+
+// only types listed in `types` are generated
+//@ func MessageBuildContext.IsExcluded
+//@ pure
+//@ requires c.config != nil && c.desc != nil && imp(c.path == "", c.desc.File() != nil)
+//@ ensures [C12] imp(c.path != "", result == !has(c.config.Types, c.path))
+
+//@ func MessageBuildContext.GetInjectedFields
+//@ requires c != nil && c.config != nil && c.desc != nil && c.path != ""
+//@ ensures [C10] imp(has(c.config.InjectedFields, c.path), same(result, c.config.InjectedFields[c.path]))
+//@ ensures [C10] imp(!has(c.config.InjectedFields, c.path), len(result) == 0)
+
+//@ func MessageBuildContext.IsEmpty
+//@ pure
+//@ requires c != nil && c.desc != nil
+//@ ensures [C10,C01] result == (len(c.desc.GetField()) == 0)
+
+// ===================================================================== field.go
+
+//@ func Field.getKind
+//@ pure
+//@ requires f != nil && imp(f.IsMap && !f.IsCustomType, f.MapValueField != nil)
+//@ ensures [C02,C17] result == ite(f.IsCustomType, CustomKind, ite(f.IsMap && f.MapValueField.IsMessage, ObjectMapKind, ite(f.IsMap, PrimitiveMapKind, ite(f.IsRepeated && f.IsMessage, ObjectListKind, ite(f.IsRepeated, PrimitiveListKind, ite(f.IsMessage, ObjectKind, PrimitiveKind))))))
+
+// <S> is the configured suffix for the custom type, else the type name without dots and slashes
+//@ func Field.setCustomType
+//@ requires f != nil && wfc(c)
+//@ define isc = gogoproto.IsCustomType(c.field.FieldDescriptorProto) || has(c.config.CustomTypes, c.path)
+//@ define ctype = ite(has(c.config.CustomTypes, c.path), c.config.CustomTypes[c.path], gogoproto.GetCustomType(c.field.FieldDescriptorProto))
+//@ modifies f.IsCustomType, f.Suffix
+//@ ensures [C17] imp(!isc, f.IsCustomType == old(f.IsCustomType) && f.Suffix == old(f.Suffix))
+//@ ensures [C17] imp(isc, f.IsCustomType && f.Suffix == ite(has(c.config.Suffixes, ctype), c.config.Suffixes[ctype], replaceall(replaceall(ctype, "/", ""), ".", "")))
+
+//@ func Field.setTerraformTypeOverride
+//@ requires f != nil && wfc(c)
+//@ define st = c.config.SchemaTypes
+//@ define hasO = has(st, c.path) || has(st, c.typeName)
+//@ define o = ite(has(st, c.path), st[c.path], st[c.typeName])
+//@ modifies f.TerraformType
+//@ ensures [C11] imp(!hasO, same(f.TerraformType, old(f.TerraformType)))
+//@ ensures [C11] imp(hasO, f.Type == o.Type && f.ValueType == o.ValueType && f.ElemType == o.Type && f.ElemValueType == o.ValueType && f.ValueCastToType == o.CastToType && f.ValueCastFromType == o.CastToType && f.TypeConstructor == o.TypeConstructor)
+//@ ensures imp(hasO, f.IsMessage == old(f.IsMessage) && f.ZeroValue == old(f.ZeroValue) && f.IsTypeScalar == old(f.IsTypeScalar))
+
+// a message without fields is represented by the single computed Bool attribute "active"
+//@ func BuildPlaceholderField
+//@ ensures [C10] result != nil && fresh(result) && result.Kind == PrimitiveKind && result.Name == "active" && result.NameSnake == "active" && result.IsComputed && !result.IsRequired && result.IsPlaceholder
+//@ ensures [C10] result.Type == "github.com/hashicorp/terraform-plugin-framework/types.BoolType" && result.ElemValueType == "github.com/hashicorp/terraform-plugin-framework/types.Bool" && result.GoType == "bool"
+//@ ensures [C10] result.Path == basePath + ".active" && result.OneOfName == "" && !result.ParentIsOptionalEmbed && !result.IsNullable && result.Message == nil
+
 // ===================================================================== CopyFrom, emitted code
 
 //@ emits CopyFrom when true
